@@ -364,6 +364,8 @@ func (d *Director) Connect(a *Actor, payout, override string, legacy bool) error
 	w.Ref.SetNode(node)
 	if a.IsHost {
 		w.Reg[a.ID] = a.Conn
+	} else {
+		delete(w.Reg, a.ID) // it is no host (any more): no connection speaks for it as one
 	}
 	d.resyncSeen(a.ID, t0, t1, op)
 	low := d.minBalance() != nil && !a.IsHost && spend.Cmp(d.minBalance()) < 0
